@@ -18,6 +18,9 @@ let field line key =
   | None -> ""
   | Some s -> let e = (try Stdlib.String.index_from line s ' ' with Not_found -> ll) in Stdlib.String.sub line s (e - s)
 let attr_fields = ["ty"; "os"; "lm"; "at"; "nm"; "st"; "inf"; "ud"]
+(* attr->group.depth is renumbered by a restrict (group_depths_check states what it must be): dropped from the comparison *)
+let strip_gdepth v =
+  Stdlib.String.concat "," (Stdlib.List.filter (fun f -> not (Stdlib.String.length f > 7 && Stdlib.String.sub f 0 7 = "gdepth:")) (split_on ',' v))
 (* ids of the Groups with dont_merge set (see Restrict.v, dont_merge_level) *)
 let dont_merge_ids (p : parsed_dump) =
   let l = ref [] in
@@ -56,7 +59,8 @@ let on_step before after (s, fl, st, ft, rc, en) =
      | _ -> print_endline ("spec VIOLATION " ^ show_viols vs ^ (if raw_same then "" else " raw-dump-text-changed@0")));
     print_endline "attrs ok"
   end else begin
-    (match restrict_spec_check before.pd after.pd s fl @ dont_merge_check before.pd after.pd s fl (dont_merge_ids before) with
+    (match restrict_spec_check before.pd after.pd s fl @ dont_merge_check before.pd after.pd s fl (dont_merge_ids before)
+           @ group_depths_check after.pd with
      | [] -> print_endline "spec ok"
      | vs -> print_endline ("spec VIOLATION " ^ show_viols vs));
     (* attributes of survivors, from the raw text, keyed by gp *)
@@ -65,7 +69,7 @@ let on_step before after (s, fl, st, ft, rc, en) =
     let bad = ref [] in
     Stdlib.Array.iter (fun l ->
       match Stdlib.Hashtbl.find_opt tbl (field l "gp") with
-      | Some ol -> if Stdlib.List.exists (fun k -> field l k <> field ol k) attr_fields then bad := field l "gp" :: !bad
+      | Some ol -> if Stdlib.List.exists (fun k -> strip_gdepth (field l k) <> strip_gdepth (field ol k)) attr_fields then bad := field l "gp" :: !bad
       | None -> ()) after.raw_objs;
     (match !bad with [] -> print_endline "attrs ok" | b -> print_endline ("attrs VIOLATION " ^ Stdlib.String.concat "," (Stdlib.List.rev b)))
   end;
